@@ -2,6 +2,8 @@ import PynnVerif.Model.Heap
 import PynnVerif.Driver.Util
 import PynnVerif.Driver.Descent
 import PynnVerif.Driver.Sparse
+import PynnVerif.Driver.Index
+import PynnVerif.Driver.Alias
 /-!
 # Line-protocol driver over the executable model
 
@@ -22,7 +24,7 @@ structure St where
   row : Row F := #[]
 
 /-- stateless area handlers (first one that answers wins) -/
-def handlers : List Handler := [handleDescent, handleSparse]
+def handlers : List Handler := [handleDescent, handleSparse, handleIndex, handleAlias]
 
 def step (st : St) (line : String) : St × String :=
   let toks := (line.trimAscii.toString.splitOn " ").filter (· ≠ "")
